@@ -10,23 +10,36 @@ open Driver.StoreCommon
 
 namespace Driver.C19
 
+/-- the redb tables hold a header that does not pass `ExtendedHeader::validate` -/
+def holdsUnvalidated (t : Lumina.Model.Store.Tables) : Bool := t.headers.any (fun p => !p.2.valid)
+
+/-- the redb half of a printed model line -/
+def redbPart (line : String) : String :=
+  match splitObs line with
+  | some (_, r) => r
+  | none => ""
+
 def spec (s : St) (op : String) (obs : String) : String :=
   if !isStoreOp op then "specskip"
   else
-    let (s', _, absPart) := stepFull s op
+    let (s', modelLine, absPart) := stepFull s op
     if absPart.isEmpty then "specskip"
-    -- precondition of the stores: only validated headers are stored (decoding validates).  Once
-    -- an unvalidated header was accepted the redb store cannot read it back; conformance to
-    -- the abstract store is claimed only up to that point (the MODEL is still compared).
-    else if s'.tainted then "specskip"
     else if !Lumina.Spec.C19.invOK s'.abs then
       "specfail C19/abstract-invariant sampled-within-stored / pruned-disjoint / single-valued indexes broken"
     else match splitObs obs with
     | none => "specfail C19/unparsed"
     | some (m, r) =>
+      -- the in-memory store must conform in EVERY history
       if m != absPart then s!"specfail C19/mem-differs-from-abstract-store expected: {absPart}"
-      else if r != absPart then s!"specfail C19/redb-differs-from-abstract-store expected: {absPart}"
-      else "specok"
+      else if r == absPart then "specok"
+      -- KNOWN FINDING (known_findings.json): `Store::insert` does not validate but the redb store
+      -- re-validates whatever it reads (`ExtendedHeader::decode`).  Exactly this class is excused:
+      -- the redb tables hold an unvalidated header (before or after this call) AND the real redb
+      -- store answers precisely what the transcription of that behaviour (`decodeHeader`) predicts.
+      -- Any other difference from the abstract store is reported under the general fingerprint.
+      else if (holdsUnvalidated s.redb || holdsUnvalidated s'.redb) && r == redbPart modelLine then
+        "specfail C19/redb/unvalidated-header-stored redb re-validates on read: StoredDataError at / next to / on removal of a stored unvalidated header"
+      else s!"specfail C19/redb-differs-from-abstract-store expected: {absPart}"
 
 def handler : Driver.Handler St := { init := St.init .c19, step := step, spec := spec }
 
